@@ -623,6 +623,7 @@ class Node:
             if deep is None:
                 deep = True
             topnodes = child._root.children
+            n = None  # an empty tree adds nothing
             # Check this before the first node is added
             existing_ids = {n._data_id for n in self.children}
             for n in topnodes:
